@@ -21,8 +21,8 @@ RULE = ('systematic schedule enumeration: for each chosen element class X (quick
         'does its first use of X (construct with attributes, add the children of a shortest valid word, validate, serialise) '
         'and is pre-empted once, at every executed library line k in turn (all k; a stride keeps it <= 600 points per class and family '
         'in quick), while thread B runs its own first use of X (family same) or of a class sharing attributes with X (family '
-        'shared), or an incomplete / differently valued document, or after A made refused calls (misspelt attribute, wrong '
-        'child), or with both threads building their element unchecked and switching checking on through the setter, or while A probes its integer-typed attributes and values with equal values of another Python kind (2.0, '
+        'shared), or an incomplete / differently valued document, or after A - or both - made refused calls (misspelt attribute, wrong '
+        'child, refused attribute values; class, beginning and length of every message are compared), or with both threads building their element unchecked and switching checking on through the setter, or while A probes its integer-typed attributes and values with equal values of another Python kind (2.0, '
         'Fraction(2), Decimal(2), True: the answers are part of A\'s result), to completion in the gap; each k in a child forked from a pristine parent. Both threads\' results '
         '(serialisation text or exception class) are compared with the single-threaded result from a pristine child. Plus a '
         'free-running stress (8 threads, switch interval 1e-6). non-trivial = a schedule in which B actually ran inside A\'s '
@@ -153,7 +153,8 @@ def do_scenario(spec):
             f()
             events.append('ok')
         except Exception as e:  # noqa: BLE001
-            events.append('%s:%s' % (type(e).__name__, str(e)[:60]))
+            # class, beginning AND length of the message: what another thread did must not leak into it
+            events.append('%s:%s#%d' % (type(e).__name__, str(e)[:60], len(str(e))))
     try:
         cls = getattr(xe, spec['cls'])
         obj = None
@@ -186,6 +187,10 @@ def do_scenario(spec):
                       lambda: obj.add_child(getattr(xe, 'XMLScorePartwise')(xsd_check=False)),
                       lambda: setattr(obj, 'xml_no_such_child', None)):
                 probe(f)
+            # a refused value for every attribute of the scenario (each member type of a union adds its reason to the message)
+            for an, lex in spec['attrs']:
+                probe(lambda an=an: setattr(obj, an.replace('-', '_'), '@@refused@@'))
+                probe(lambda an=an: setattr(obj, an.replace('-', '_'), -987654321.5))
         if spec.get('probe_kinds') and spec['values']:
             for alt in _other_kinds(spec['values'][0]):
                 probe(lambda: cls(alt))
@@ -354,6 +359,8 @@ def families_of(cn):
         out.append(('incomplete-B', specA, inc))
     # A makes a few refused calls before its normal work (error paths touch the shared tables too); B works normally
     out.append(('refused-calls-A', dict(specA, misuse=True), inc if inc is not None else specA))
+    # both threads make refused calls (bad attribute values included): the messages each gets must be its own
+    out.append(('refused-calls-both', dict(specA, misuse=True), dict(scenario_spec(cn, 'last'), misuse=True)))
     # B uses other valid values than A (for union-typed attributes: the other member type, e.g. a number instead of a token)
     alt = scenario_spec(cn, 'last')
     if alt['attrs'] != specA['attrs'] or alt['values'] != specA['values']:
